@@ -236,9 +236,14 @@ func (tc *templateChecker) visitKey(key string) {
 func (tc *templateChecker) checkLoopFunc(node *ast.FunctionNode) {
 	if len(node.Args) == 1 {
 		if ref, ok := node.Args[0].(*ast.DataRefNode); ok && len(ref.Access) == 0 {
-			for _, v := range tc.vars {
-				if v.name == ref.Key && v.kind == forVar {
-					return
+			// (the innermost binding of the name, as for any other reference: a
+			// {let} of the same name inside the loop hides the loop variable.)
+			for i := len(tc.vars) - 1; i >= 0; i-- {
+				if tc.vars[i].name == ref.Key {
+					if tc.vars[i].kind == forVar {
+						return
+					}
+					break
 				}
 			}
 		}
